@@ -15,7 +15,8 @@ TablePats == { <<[k |-> "lit", v |-> "a"]>>, <<[k |-> "one", v |-> "p"]>>,
                <<[k |-> "lit", v |-> "a"], [k |-> "star", v |-> "p"]>>, <<[k |-> "plus", v |-> "p"]>> }
 RouteChoices == {[method |-> m, pat |-> p] : m \in TableMethods, p \in TablePats}
 Tables == {t \in SeqsUpTo(RouteChoices, MaxRoutes) : t # <<>>}
-ReqPaths == { <<"a">>, <<"b">>, <<"a", "">>, <<"a", "b">>, <<"a", "b", "a">>, <<"">>, <<"ab">> }
+\* (a percent-encoded slash is part of ONE segment: the documented grammar speaks about the request path as it is, and dispatch must route on that)
+ReqPaths == { <<"a">>, <<"b">>, <<"a", "">>, <<"a", "b">>, <<"a", "b", "a">>, <<"">>, <<"ab">>, <<"a%2Fb">>, <<"a", "b%2F">>, <<"a%2F">> }
 Requests == {[method |-> m, path |-> s] : m \in ReqMethods, s \in ReqPaths}
 
 VARIABLE i
